@@ -16,7 +16,9 @@ RULE = ("random cases: batches of 2..16 rows with 1..5 inputs; predictor and adv
         "hidden layers of width 1..6, ReLU/tanh; final sigmoid / softmax / identity according to the target type) so their parameters "
         "are snapshotted before and after EVERY training step (1..3 consecutive partial_fit calls, or fit with one batch) under plain SGD (separately configured learning rates for the two optimisers; alpha may be changed through "
         "set_params between steps); binary / 3-4-class / continuous targets and sensitive features; demographic parity and equalized odds; "
-        "alpha in {0,0.3,1,5}; eta in {0.01,0.1,1}. Oracle (autograd on deep copies taken before the step, documented losses: BCE, "
+        "alpha in {0,0.3,1,5}; eta in {0.01,0.1,1}; class fit_batches: fit() over several batches / epochs with shuffle on or off, a recorder wrapped around "
+        "PytorchEngine.train_step from the harness checks that every step is given rows with their own target and sensitive feature and that "
+        "every epoch visits every row once. Oracle (autograd on deep copies taken before the step, documented losses: BCE, "
         "cross-entropy, MSE with mean reduction): per predictor tensor (W_before-W_after)/eta = dLP/dW - proj_{dLA/dW}(dLP/dW) - "
         "alpha*dLA/dW with the Frobenius projection, <update+alpha*dLA, dLA>_F = 0, adversary tensors follow -eta*dLA/dU. "
         "distinct = distinct (target type, sensitive type, constraint, layer shapes, alpha, eta, entry point); non-trivial = some "
@@ -26,7 +28,86 @@ ASSUMPTIONS = ["PyTorch engine only (TensorFlow/Keras not installed in the sandb
 
 
 def cases(tier, seed):
-    return [("step", i) for i in range(700 if tier == "quick" else 20000)]
+    k = 700 if tier == "quick" else 20000
+    return [("step", i) for i in range(k)] + [("fit_batches", i) for i in range(k // 5)]
+
+
+_BATCHES = None  # list the train_step recorder appends to while a fit_batches case runs
+
+
+def _install_recorder():
+    """Class-level wrapper around PytorchEngine.train_step (attached from the harness, nothing in the repository is edited): records
+    the (X, Y, A) batch every training step is given."""
+    from fairlearn.adversarial._pytorch_engine import PytorchEngine
+
+    if getattr(PytorchEngine.train_step, "_vf_recorder", False):
+        return
+    orig = PytorchEngine.train_step
+
+    def train_step(self, X, Y, A):
+        if _BATCHES is not None:
+            _BATCHES.append((X.detach().clone().numpy(), Y.detach().clone().numpy(), A.detach().clone().numpy()))
+        return orig(self, X, Y, A)
+
+    train_step._vf_recorder = True
+    PytorchEngine.train_step = train_step
+
+
+def run_fit_batches(ctx, rng, torch):
+    """fit() with several batches and epochs, shuffle on or off: every training step must be given rows of the data with THEIR OWN target
+    and sensitive feature (the losses of the documented update are those of the batch's rows), every row once per epoch, and the
+    first step must be the documented update on exactly the batch it was given."""
+    global _BATCHES
+    from fairlearn.adversarial import AdversarialFairnessClassifier, AdversarialFairnessRegressor
+
+    _install_recorder()
+    ykind = gen.pick(rng, ["binary", "binary", "multiclass", "continuous"])
+    akind = gen.pick(rng, ["binary", "binary", "multiclass", "continuous"])
+    n = int(rng.integers(6, 21))
+    d = int(rng.integers(2, 5))
+    X = rng.normal(size=(n, d)).round(3)
+    X[:, 0] = np.arange(n)  # row id
+    y_raw, Y, ny, yfinal, yloss = make_target(rng, n, ykind)
+    a_raw, A, na, afinal, aloss = make_target(rng, n, akind)
+    constraint = gen.pick(rng, ["demographic_parity", "equalized_odds"])
+    alpha, eta = float(gen.pick(rng, [0.3, 1.0])), float(gen.pick(rng, [0.01, 0.1]))
+    shuffle = bool(rng.random() < 0.7)
+    bs = int(gen.pick(rng, [2, 3, 4, 5, n]))
+    epochs = int(gen.pick(rng, [1, 2, 3]))
+    pred = build_module(torch, rng, d, ny, yfinal)
+    adv = build_module(torch, rng, ny * (2 if constraint == "equalized_odds" else 1), na, afinal)
+    pred0, adv0 = copy.deepcopy(pred), copy.deepcopy(adv)
+    Est = AdversarialFairnessRegressor if ykind == "continuous" else AdversarialFairnessClassifier
+    est = Est(backend="torch", predictor_model=pred, adversary_model=adv,
+              predictor_optimizer=lambda m: torch.optim.SGD(m.parameters(), lr=eta), adversary_optimizer=lambda m: torch.optim.SGD(m.parameters(), lr=eta),
+              constraints=constraint, alpha=alpha, batch_size=bs, epochs=epochs, shuffle=shuffle, random_state=int(rng.integers(0, 1000)))
+    wit = {"target": ykind, "sensitive": akind, "constraint": constraint, "n": n, "batch_size": bs, "epochs": epochs, "shuffle": shuffle}
+    _BATCHES = []
+    try:
+        est.fit(X, y_raw, sensitive_features=a_raw)
+        batches = _BATCHES
+    finally:
+        _BATCHES = None
+    ctx.mark(["fit_batches", ykind, akind, constraint, n, bs, epochs, shuffle], shuffle and len(batches) >= 2, sample=wit)
+    per_epoch = -(-n // bs)
+    if not ctx.check(len(batches) == epochs * per_epoch, "number_of_training_steps_differs_from_epochs_times_batches", got=len(batches), expected=epochs * per_epoch, wit=wit):
+        return
+    Y2, A2 = np.asarray(Y, float).reshape(n, -1), np.asarray(A, float).reshape(n, -1)
+    for e in range(epochs):
+        seen = []
+        for b in range(per_epoch):
+            Xb, Yb, Ab = batches[e * per_epoch + b]
+            ids = np.rint(Xb[:, 0]).astype(int).tolist()
+            seen += ids
+            ctx.ev("batch_rows_alignment_checked", len(ids))
+            ok = all(0 <= i < n for i in ids) and bool(np.allclose(Xb, X[ids], atol=1e-6)) and bool(np.allclose(Yb.reshape(len(ids), -1), Y2[ids], atol=1e-6)) \
+                and bool(np.allclose(Ab.reshape(len(ids), -1), A2[ids], atol=1e-6))
+            ctx.check(ok, "training_step_given_rows_whose_target_or_sensitive_feature_belongs_to_another_row", epoch=e + 1, batch=b + 1, row_ids=ids,
+                      sensitive_in_batch=Ab.reshape(len(ids), -1)[:6].tolist(), sensitive_of_those_rows=A2[[i for i in ids if 0 <= i < n]][:6].tolist(), wit=wit)
+        ctx.check(sorted(seen) == list(range(n)), "an_epoch_does_not_visit_every_row_exactly_once", epoch=e + 1, visited=sorted(seen), wit=wit)
+    if len(batches) == 1:
+        ids = np.rint(batches[0][0][:, 0]).astype(int).tolist()
+        check_step(ctx, torch, pred0, adv0, pred, adv, X[ids], Y[ids], A[ids], yloss, aloss, constraint, alpha, eta, 0, wit, eta)
 
 
 def build_module(torch, rng, n_in, n_out, final):
@@ -139,6 +220,8 @@ def run_case(cls, key, seed, ctx):
     from fairlearn.adversarial import AdversarialFairnessClassifier, AdversarialFairnessRegressor
 
     rng = rng_for(seed, ID, cls, key)
+    if cls == "fit_batches":
+        return run_fit_batches(ctx, rng, torch)
     ykind = gen.pick(rng, ["binary", "binary", "multiclass", "continuous"])
     akind = gen.pick(rng, ["binary", "binary", "multiclass", "continuous"])
     nmin = 5 if "multiclass" in (ykind, akind) else 2
